@@ -15,7 +15,11 @@
     peer can read = what the proxy writes), the *write* limit the **rx** limiter; a limit ≤ 0 creates
     none; both limiters are shared by all accepted connections;
   * `Conn.Read/Write`: underlying I/O first, then (if `n > 0` and a limiter exists) `WaitN(n)`;
-    the underlying call's results are returned unchanged.
+    the underlying call's results are returned unchanged;
+  * deadlines: `Conn` embeds `net.Conn`, so `SetDeadline/SetReadDeadline/SetWriteDeadline` are the
+    underlying connection's and bound the underlying I/O only; the wait runs on
+    `context.Background()` and is never cut short (`stepArmed`).  What a wait that honours a deadline
+    would do is kept beside it (`waitNWithin`, `stepD`) so that the theorems can say why it must not.
 
   Core-only.
 -/
@@ -142,6 +146,21 @@ def step (L : Listener) (s : Sys) (op : Op) : Sys × Nat :=
     let r := waitN l (s.get op.dir) op.time op.n
     (s.set op.dir r.1, r.2)
 
+/-- `Conn.Read`/`Conn.Write` on a connection on which a deadline `left` ns ahead is armed
+    (`none` = no deadline): `Conn` keeps no deadline and waits on `context.Background()`, so the
+    deadline does not enter the computation. -/
+def stepArmed (L : Listener) (s : Sys) (op : Op) (_left : Option Nat) : Sys × Nat := step L s op
+
+/-- NOT what `Conn` does — `(*Limiter).WaitN(ctx, n)` with a context whose deadline is `left` ns
+    away (`none` = no deadline): when the wait the reservation needs is longer than the time left it
+    returns an error at once and reserves **nothing** (x/time/rate `reserveN(t, n, maxFutureReserve)`);
+    a caller that ignores the error has moved `n` bytes that nobody accounts for. -/
+def waitNWithin (l : Limiter) (s : LState) (t n : Nat) (left : Option Nat) : LState × Nat :=
+  match reserveN l s t n, left with
+  | (s', some w), some d => if d < w then (s, t) else (s', t + w)
+  | (s', some w), none => (s', t + w)
+  | (s', none), _ => (s', t)
+
 /-- a sequence of calls (in the order they take the limiter's lock): final state, return times -/
 def run (L : Listener) : Sys → List Op → Sys × List Nat
   | s, [] => (s, [])
@@ -215,6 +234,41 @@ def validB (l : Limiter) (w : Nat) : RunSt → List BOp → Bool
   | s, op :: rest =>
     decide (s.now ≤ op.t) && decide (op.c < s.rd.length) && decide (s.rd.getD op.c 0 ≤ op.t) &&
       decide (op.n ≤ w) && validB l w (stepB l s op) rest
+
+/-! ### Schedules of a hypothetical deadline-honouring wait
+
+The same ghost-state machinery with `waitNWithin` in the place of `waitN`: `left` is the time the
+connection's deadline leaves when the call reaches the limiter. -/
+
+structure DOp where
+  t : Nat
+  c : Nat
+  n : Nat
+  left : Option Nat
+  deriving DecidableEq, Repr
+
+def DOp.toB (op : DOp) : BOp := { t := op.t, c := op.c, n := op.n }
+
+def stepD (l : Limiter) (s : RunSt) (op : DOp) : RunSt :=
+  if op.n = 0 then { st := s.st, now := op.t, rd := s.rd.set op.c op.t } else
+  let r := waitNWithin l s.st op.t op.n op.left
+  { st := r.1, now := op.t, rd := s.rd.set op.c r.2 }
+
+/-- schedule validity (as `validB`) when waits honour deadlines -/
+def validD (l : Limiter) (w : Nat) : RunSt → List DOp → Bool
+  | _, [] => true
+  | s, op :: rest =>
+    decide (s.now ≤ op.t) && decide (op.c < s.rd.length) && decide (s.rd.getD op.c 0 ≤ op.t) &&
+      decide (op.n ≤ w) && validD l w (stepD l s op) rest
+
+/-- every call of the schedule waited for its tokens: no wait was longer than the time its deadline
+    left (trivially so when no deadline is armed) -/
+def allWaitedD (l : Limiter) : RunSt → List DOp → Bool
+  | _, [] => true
+  | s, op :: rest =>
+    (match (reserveN l s.st op.t op.n).2, op.left with
+      | some w, some d => decide (w ≤ d) || decide (op.n = 0)
+      | _, _ => true) && allWaitedD l (stepD l s op) rest
 
 /-! ### Schedules whose time stamps are not ordered
 
